@@ -29,11 +29,12 @@ class Eager:
     def __init__(self, subs):
         self.subs = {sd['id']: dsl.make_substance(sd) for sd in subs}
         self.byname = {s.name: k for k, s in self.subs.items()}
+        self.bykey = {dsl.key_of(s): k for k, s in self.subs.items()}
         self.env = {}
         self.history = []      # after each successful step: {name: dump}
         self.trash = []        # per step: {sid: amount}
         self._d = dsl.Impl.__new__(dsl.Impl)
-        self._d.subs, self._d.byname = self.subs, self.byname
+        self._d.subs, self._d.byname, self._d.bykey = self.subs, self.byname, self.bykey
 
     def dump(self, o):
         return dsl.Impl.dump(self._d, o)
@@ -131,7 +132,8 @@ def run_recipe(prog):
     helper = Eager(prog['subs'])
     helper.subs = subs
     helper.byname = {s.name: k for k, s in subs.items()}
-    helper._d.subs, helper._d.byname = helper.subs, helper.byname
+    helper.bykey = {dsl.key_of(s): k for k, s in subs.items()}
+    helper._d.subs, helper._d.byname, helper._d.bykey = helper.subs, helper.byname, helper.bykey
     handles = {}
     for o in prog['objects']:
         if o['t'] == 'c':
@@ -604,7 +606,7 @@ class RecipeGen:
                     q = gen.pick_qty(rng, E.env[c].volume * 1e-6 * rng.choice([0.1, 0.3]), 'L', sig=2)
                     from pyplate.pyplate import Unit as _U
                     stock_mol = _U.convert_from(s, E.env[c].contents[s], _cfg().moles_storage_unit, 'mol')
-                    self.try_step({'op': 'solfrom', 'src': c, 'name': n, 'solute': E.byname[s.name], 'c': conc, 'solvent': solvent['id'], 'q': q,
+                    self.try_step({'op': 'solfrom', 'src': c, 'name': n, 'solute': dsl.sid_of(E, s), 'c': conc, 'solvent': solvent['id'], 'q': q,
                                    'stock_mol': '%.3g' % stock_mol})
         elif k == 'dilute':
             cand = [(c, s) for c in nonempty for s in E.env[c].contents if s.is_solid() and E.env[c].contents[s] > 0 and E.env[c].has_liquid()]
@@ -614,7 +616,7 @@ class RecipeGen:
                 cur = E.env[c].get_concentration(s, 'M')
                 if cur > 0:
                     conc = {'s': 'M', 'v': gen.dec(cur * rng.choice([0.3, 0.5, 0.8]), 2)}
-                    st = {'op': 'dilute', 'name': c, 'solute': E.byname[s.name], 'c': conc, 'solvent': solvent['id']}
+                    st = {'op': 'dilute', 'name': c, 'solute': dsl.sid_of(E, s), 'c': conc, 'solvent': solvent['id']}
                     if self.allow_rename and rng.random() < 0.4:
                         st['rename'] = True
                     self.try_step(st, 'dilute:rename' if st.get('rename') else None)
